@@ -1246,7 +1246,7 @@ func c04(c *Ctx) {
 					// nil exactly when the thresholds could not be retrieved (a fact about retrieveThresholds' result)
 					for _, f := range fs {
 						for _, v := range []ssa.Value{f.X, f.Y, f.V} {
-							if v != nil && strings.Contains(exprString(v, 0), "retrieveThresholds") {
+							if v != nil && (strings.Contains(exprString(v, 0), "retrieveThresholds") || strings.Contains(exprString(v, 0), "findTag")) {
 								okNil = true
 							}
 						}
